@@ -23,6 +23,7 @@ type GWrite struct {
 }
 
 type gateReq struct {
+	pause   bool
 	data    []byte
 	arrived int64
 	at      time.Time
@@ -44,6 +45,11 @@ type GateConn struct {
 	Overlap bool
 	curDl   time.Time
 	DlCalls int
+	// FailedAt is the number of writes that had been accepted when the
+	// scheduler made a pending Write fail (-1: no failure injected); FailSeq is
+	// the global stamp of that moment.
+	FailedAt int
+	FailSeq  int64
 
 	in      []byte
 	pos     int
@@ -60,7 +66,7 @@ type GateConn struct {
 
 // NewGateConn returns a GateConn with the given input for the read side.
 func NewGateConn(input []byte, chunk int, gated bool) *GateConn {
-	return &GateConn{in: input, chunk: chunk, Gated: gated, wake: make(chan struct{})}
+	return &GateConn{in: input, chunk: chunk, Gated: gated, wake: make(chan struct{}), FailedAt: -1}
 }
 
 var errGateClosed = errors.New("xport: use of closed connection")
@@ -117,8 +123,14 @@ func (c *GateConn) Pending() int {
 	return len(c.pending)
 }
 
-// Grant lets the oldest waiting Write through; false if none waits.
-func (c *GateConn) Grant() bool {
+// Grant lets the oldest waiting Write (or paused caller) through; false if none waits.
+func (c *GateConn) Grant() bool { return c.grant(nil) }
+
+// GrantErr makes the oldest waiting Write fail with err (a paused caller is
+// simply released); false if nothing waits.
+func (c *GateConn) GrantErr(err error) bool { return c.grant(err) }
+
+func (c *GateConn) grant(err error) bool {
 	c.mu.Lock()
 	if len(c.pending) == 0 {
 		c.mu.Unlock()
@@ -126,9 +138,29 @@ func (c *GateConn) Grant() bool {
 	}
 	req := c.pending[0]
 	c.pending = c.pending[1:]
+	if req.pause {
+		err = nil
+	} else if err != nil && c.FailedAt < 0 {
+		c.FailedAt = len(c.Writes)
+		c.FailSeq = Seq.Add(1)
+	}
 	c.mu.Unlock()
-	req.grant <- nil
+	req.grant <- err
 	return true
+}
+
+// Pause blocks the caller until the scheduler grants it (a scheduling point
+// inside harness callbacks such as BufferPool.Put).  No-op when not gated.
+func (c *GateConn) Pause() {
+	c.mu.Lock()
+	if !c.Gated || c.closed {
+		c.mu.Unlock()
+		return
+	}
+	req := &gateReq{pause: true, arrived: Seq.Add(1), at: time.Now(), grant: make(chan error, 1)}
+	c.pending = append(c.pending, req)
+	c.mu.Unlock()
+	<-req.grant
 }
 
 func (c *GateConn) Read(p []byte) (int, error) {
